@@ -216,13 +216,23 @@ pub proof fn lemma_tz_full{X}(w: {I}, r: int)
     }
 }
 
-// index arithmetic of a chunk [a, a+l) that stays inside one word, copied from/to [b, b+l)
+// index arithmetic of a chunk [a, a+l) that stays inside one word, copied from/to [b, b+l).
+// (explicit div/mod proofs: left to Z3's own div/mod reasoning these were the unstable queries of the whole development)
+pub proof fn lemma_same_word{X}(a: int, k: int)
+    requires 0 <= a, 0 <= k, a % {I.bits} + k < {I.bits}
+    ensures (a + k) / {I.bits} == a / {I.bits}, (a + k) % {I.bits} == a % {I.bits} + k
+{
+    vstd::arithmetic::div_mod::lemma_fundamental_div_mod(a, {I.bits});
+    vstd::arithmetic::div_mod::lemma_fundamental_div_mod_converse(a + k, {I.bits}, a / {I.bits}, a % {I.bits} + k);
+}
 pub proof fn lemma_chunk_idx{X}(i: int, a: int, b: int, l: int)
     requires 0 <= a, 0 <= b, 1 <= l, a <= i < a + l, a % {I.bits} + l <= {I.bits}, b % {I.bits} + l <= {I.bits}
     ensures
         i / {I.bits} == a / {I.bits}, i % {I.bits} == a % {I.bits} + (i - a),
         (b + (i - a)) / {I.bits} == b / {I.bits}, (b + (i - a)) % {I.bits} == b % {I.bits} + (i - a),
 {
+    lemma_same_word{X}(a, i - a);
+    lemma_same_word{X}(b, i - a);
 }
 pub proof fn lemma_chunk_idx1{X}(i: int, a: int, l: int)
     requires 0 <= a, 1 <= l, a % {I.bits} + l <= {I.bits}, 0 <= i
@@ -230,12 +240,21 @@ pub proof fn lemma_chunk_idx1{X}(i: int, a: int, l: int)
         (a <= i < a + l) ==> (i / {I.bits} == a / {I.bits} && i % {I.bits} == a % {I.bits} + (i - a)),
         (i / {I.bits} == a / {I.bits}) ==> ((a <= i < a + l) == (a % {I.bits} <= i % {I.bits} < a % {I.bits} + l)),
 {
+    if a <= i < a + l { lemma_same_word{X}(a, i - a); }
+    vstd::arithmetic::div_mod::lemma_fundamental_div_mod(a, {I.bits});
+    vstd::arithmetic::div_mod::lemma_fundamental_div_mod(i, {I.bits});
+    if i / {I.bits} == a / {I.bits} {
+        assert(i - a == i % {I.bits} - a % {I.bits});
+    }
 }
 // a chunk of l bits ending just below index x, with l <= (x-1) % WB + 1, stays inside the word holding x-1
 pub proof fn lemma_top_chunk{X}(x: int, l: int)
     requires x >= 1, 1 <= l <= (x - 1) % {I.bits} + 1
     ensures x - l >= 0, (x - l) % {I.bits} + l <= {I.bits}, (x - l) / {I.bits} == (x - 1) / {I.bits},
 {
+    let y = x - 1;
+    vstd::arithmetic::div_mod::lemma_fundamental_div_mod(y, {I.bits});
+    vstd::arithmetic::div_mod::lemma_fundamental_div_mod_converse(x - l, {I.bits}, y / {I.bits}, y % {I.bits} + 1 - l);
 }
 // (w << 1) | c  with c in {0,1}: bit 0 is c, bit j>0 is bit j-1 of w
 pub proof fn lemma_shl1_or{X}(w: {I}, cw: {I}, c: bool)
